@@ -1,1 +1,569 @@
-// harness for rs/anda_cognitive_nexus/src/projection/mod.rs (mounted by #[cfg(kani)] hook)
+// @module projection::verif_kani
+// Kani harnesses for rs/anda_cognitive_nexus/src/projection/mod.rs — property C20:
+// classify (belief-state thresholds) and aggregate (corroboration groups + score).
+//
+// `aggregate` builds its grouping keys with format!("actor:{}") / format!("evidence:{}").
+// Un-stubbed `format!` is out of reach for CBMC, so `alloc::fmt::format` is replaced by a
+// *positional model*: the i-th call returns the one-byte string KEYS[i]; every harness fills KEYS so
+// that call i gets a byte that identifies the same actor / evidence id the real format! would
+// render (actors use bytes < 64, evidence ids bytes >= 64, so the two families never collide —
+// exactly like the "actor:" / "evidence:" prefixes). Candidates carry the *real* one-letter actor /
+// evidence strings, so the same body replays natively with the real format!. The number of
+// format! calls is asserted (when the model was used), so a tree that formats differently is
+// reported inconclusive instead of silently mis-modelled.
+use super::*;
+
+static mut KEYS: [u8; 12] = [0; 12];
+static mut CALLS: usize = 0;
+
+fn format_model(_args: std::fmt::Arguments<'_>) -> String {
+    unsafe {
+        let i = CALLS;
+        CALLS += 1;
+        let b = if i < 12 { KEYS[i] } else { 0 };
+        String::from_utf8_unchecked(vec![b])
+    }
+}
+fn model_calls_ok(expected: usize) -> bool {
+    // natively (playback) the model is not applied and CALLS stays 0
+    unsafe { CALLS == 0 || CALLS == expected }
+}
+fn set_keys(k: &[u8]) {
+    unsafe {
+        let mut i = 0;
+        while i < 12 {
+            KEYS[i] = if i < k.len() { k[i] } else { 0 };
+            i += 1;
+        }
+        CALLS = 0;
+    }
+}
+fn one(b: u8) -> String {
+    unsafe { String::from_utf8_unchecked(vec![b]) }
+}
+/// candidate with actor byte `a` (b'a' + a) and optional evidence byte `e`
+fn cand(seq: u64, a: u8, e: Option<u8>, stance: &str, conf: f64, opposes: bool) -> Candidate {
+    Candidate {
+        id: ElementId::new(anda_kip::ElementKind::Assertion, seq),
+        actor: one(b'a' + a),
+        evidence: match e {
+            Some(e) => vec![one(b'x' + e)],
+            None => Vec::new(),
+        },
+        stance: stance.to_string(),
+        confidence: conf,
+        opposes_target: opposes,
+    }
+}
+fn akey(a: u8) -> u8 {
+    a
+}
+fn ekey(e: u8) -> u8 {
+    64 + e
+}
+fn unit(c: f64) -> bool {
+    c >= 0.0 && c <= 1.0
+}
+
+// K1 classify ----------------------------------------------------------------------------------
+// @check id=C20 tier=quick cap=600 role=classify_laws
+// @fns projection::classify
+// @bound support, opposition in [0,1]; policy.accept, policy.material any f64 with 0 < material <= accept <= 1; group counts any usize; uncertain list empty or not
+#[kani::proof]
+#[kani::unwind(4)]
+fn c20_classify_silence_is_insufficient_and_rejection_needs_opposition() {
+    let support: f64 = kani::any();
+    let opposition: f64 = kani::any();
+    kani::assume(unit(support) && unit(opposition));
+    let mut policy = Policy::baseline();
+    policy.accept = kani::any();
+    policy.material = kani::any();
+    kani::assume(policy.material > 0.0 && policy.material <= policy.accept && policy.accept <= 1.0);
+    let has_uncertain: bool = kani::any();
+    let ledger = Ledger {
+        support_groups: kani::any(),
+        opposition_groups: kani::any(),
+        uncertain: if has_uncertain { vec![String::new()] } else { Vec::new() },
+        ..Default::default()
+    };
+    let engaged = ledger.support_groups > 0 || ledger.opposition_groups > 0 || has_uncertain;
+    let st = classify(support, opposition, &ledger, &policy);
+    if !engaged {
+        assert!(st == BeliefStatus::Insufficient, "nobody has spoken: insufficient, never rejected");
+    } else {
+        assert!(st != BeliefStatus::Insufficient, "once anybody engaged the state is not the open-world unknown");
+    }
+    if st == BeliefStatus::Rejected {
+        assert!(opposition >= policy.accept && opposition > 0.0, "rejection requires positive opposition at the accept bar");
+        assert!(support < policy.material, "rejection only when support is immaterial");
+    }
+    if opposition == 0.0 {
+        assert!(st != BeliefStatus::Rejected, "no opposition, no rejection - however little support there is");
+    }
+    if st == BeliefStatus::Accepted {
+        assert!(support >= policy.accept && opposition < policy.material, "acceptance needs sufficient support and immaterial opposition");
+    }
+    if st == BeliefStatus::Contested {
+        assert!(support >= policy.material && opposition >= policy.material, "contested needs both sides material");
+    }
+    // the thresholds are inclusive: exactly at the bar counts
+    if engaged && support == policy.accept && opposition < policy.material {
+        assert!(st == BeliefStatus::Accepted, "a score exactly at the accept bar is accepted");
+    }
+    // symmetry: swapping the sides swaps Accepted and Rejected
+    let sw = classify(opposition, support, &ledger, &policy);
+    assert!((st == BeliefStatus::Accepted) == (sw == BeliefStatus::Rejected), "accepted and rejected mirror each other");
+    kani::cover!(st == BeliefStatus::Rejected, "rejected reachable");
+    kani::cover!(st == BeliefStatus::Accepted && support == policy.accept, "accepted exactly at the bar");
+    kani::cover!(st == BeliefStatus::Uncertain && support == 0.0 && opposition == 0.0, "engaged but nothing material: uncertain");
+    kani::cover!(st == BeliefStatus::Contested, "contested reachable");
+    std::mem::forget((ledger, policy));
+}
+
+// K2 aggregate ---------------------------------------------------------------------------------
+// Group structure and float arithmetic are decided separately: with symbolic identities AND symbolic
+// f64 confidences in one query the solver did not finish (1200 s); structure harnesses use fixed
+// confidences, score harnesses use a concrete structure with fully symbolic f64 confidences.
+
+// (symbolic group structure: 121 s before the fix commit, > 600 s with the sorted fold; thorough tier)
+// @check id=C20 tier=thorough cap=1500 role=groups_are_components_two
+// @fns projection::aggregate
+// @bound two supporting candidates; the first is (actor 0, evidence 0), the second's actor and evidence ids are symbolic in 0..2 (same / different actor x same / different evidence, without loss of generality); confidences fixed (0.25, 0.5)
+// @stubs alloc::fmt::format -> positional model (i-th call returns the identity byte of the i-th key)
+// @assume format!("actor:{a}") / format!("evidence:{e}") are injective and the two families are disjoint (positional model)
+#[kani::proof]
+#[kani::unwind(14)]
+#[kani::stub(alloc::fmt::format, format_model)]
+fn c20_aggregate_two_groups_are_connected_components() {
+    let (a2, e2): (u8, u8) = (kani::any(), kani::any());
+    kani::assume(a2 < 2 && e2 < 2);
+    set_keys(&[akey(0), ekey(0), akey(a2), ekey(e2)]);
+    let v = vec![cand(1, 0, Some(0), "support", 0.25, false), cand(2, a2, Some(e2), "support", 0.5, false)];
+    let (score, groups) = aggregate(&v, false);
+    assert!(model_calls_ok(4), "format! call pattern as modelled");
+    let linked = a2 == 0 || e2 == 0;
+    assert!(groups == if linked { 1 } else { 2 }, "groups = connected components of 'shares actor or evidence'");
+    assert!(score == if linked { 0.5 } else { 0.625 }, "a group contributes its strongest member; independent groups accumulate as 1 - prod(1 - c)");
+    kani::cover!(linked && a2 != 0, "linked by evidence only");
+    kani::cover!(linked && e2 != 0, "linked by actor only");
+    kani::cover!(!linked, "independent");
+    std::mem::forget(v);
+}
+
+// the three ways two assertions can relate, one concrete structure per harness, confidences symbolic
+fn pair(a2: u8, e2: u8) {
+    let (c1, c2): (f64, f64) = (kani::any(), kani::any());
+    kani::assume(unit(c1) && unit(c2));
+    set_keys(&[akey(0), ekey(0), akey(a2), ekey(e2)]);
+    let v = vec![cand(1, 0, Some(0), "support", c1, false), cand(2, a2, Some(e2), "support", c2, false)];
+    let (score, groups) = aggregate(&v, false);
+    assert!(model_calls_ok(4), "format! call pattern as modelled");
+    let linked = a2 == 0 || e2 == 0;
+    assert!(groups == if linked { 1 } else { 2 }, "groups = connected components of 'shares actor or evidence'");
+    assert!(score >= 0.0 && score <= 1.0, "score within [0,1]");
+    if linked {
+        let m = if c1 >= c2 { c1 } else { c2 };
+        assert!(score == 1.0 - (1.0 - m), "a group contributes its strongest member, not the sum of its members");
+    }
+    kani::cover!(c2 > c1, "second assertion more confident");
+    kani::cover!(c1 > c2 && c2 > 0.0, "second assertion weaker");
+    std::mem::forget(v);
+}
+// @check id=C20 tier=quick cap=900 role=pair_structures harness=c20_pair_same_actor,c20_pair_same_evidence,c20_pair_independent
+// @fns projection::aggregate
+// @bound two supporting candidates: same actor / different actor citing the same evidence / nothing shared (one concrete structure per harness); confidences any f64 in [0,1]
+// @stubs alloc::fmt::format -> positional model
+#[kani::proof]
+#[kani::unwind(14)]
+#[kani::stub(alloc::fmt::format, format_model)]
+fn c20_pair_same_actor() {
+    pair(0, 1);
+}
+#[kani::proof]
+#[kani::unwind(14)]
+#[kani::stub(alloc::fmt::format, format_model)]
+fn c20_pair_same_evidence() {
+    pair(1, 0);
+}
+#[kani::proof]
+#[kani::unwind(14)]
+#[kani::stub(alloc::fmt::format, format_model)]
+fn c20_pair_independent() {
+    pair(1, 1);
+}
+
+// @check id=C20 tier=quick cap=900 role=score_range_two_independent
+// @fns projection::aggregate
+// @bound two independent supporters (distinct actors, no evidence); confidences ANY non-NaN f64 (incl. negative, > 1, infinite: the clamp is part of the claim)
+// @stubs alloc::fmt::format -> positional model
+#[kani::proof]
+#[kani::unwind(14)]
+#[kani::stub(alloc::fmt::format, format_model)]
+fn c20_aggregate_score_stays_in_unit_interval() {
+    let (c1, c2): (f64, f64) = (kani::any(), kani::any());
+    kani::assume(!c1.is_nan() && !c2.is_nan());
+    set_keys(&[akey(0), akey(1)]);
+    let v = vec![cand(1, 0, None, "support", c1, false), cand(2, 1, None, "support", c2, false)];
+    let (score, groups) = aggregate(&v, false);
+    assert!(model_calls_ok(2), "format! call pattern as modelled");
+    assert!(groups == 2, "two independent groups");
+    assert!(score >= 0.0 && score <= 1.0, "score within [0,1] whatever confidences were stored");
+    set_keys(&[]);
+    let (os, og) = aggregate(&v, true);
+    assert!(os == 0.0 && og == 0, "no opposing candidate: empty side scores (0.0, 0)");
+    kani::cover!(c1 > 1.0 && c2 < 0.0, "out-of-range confidences clamped");
+    kani::cover!(score > 0.0 && score < 1.0, "interior score");
+    std::mem::forget(v);
+}
+
+// repetition is not support: a candidate whose actor (or evidence) is already present never adds a
+// group and changes the score only if it is more confident than its group. Two-run relational query:
+// with fully symbolic f64 the solver has to prove two 53-bit multiplier circuits equivalent and did
+// not finish (400 s); confidences are therefore on the 1/16 grid (exact arithmetic).
+fn repetition(by_actor: bool) {
+    let k: [u8; 3] = kani::any();
+    kani::assume(k[0] <= 16 && k[1] <= 16 && k[2] <= 16);
+    let c = [k[0] as f64 / 16.0, k[1] as f64 / 16.0, k[2] as f64 / 16.0];
+    set_keys(&[akey(0), ekey(0), akey(1), ekey(1)]);
+    let base = vec![cand(1, 0, Some(0), "support", c[0], false), cand(2, 1, Some(1), "support", c[1], false)];
+    let (s0, g0) = aggregate(&base, false);
+    assert!(model_calls_ok(4), "format! call pattern as modelled (base)");
+    // third candidate: repeats actor 0 with fresh evidence 2, or new actor 2 citing evidence 1
+    let (a3, e3) = if by_actor { (0u8, 2u8) } else { (2u8, 1u8) };
+    set_keys(&[akey(0), ekey(0), akey(1), ekey(1), akey(a3), ekey(e3)]);
+    let more = vec![
+        cand(1, 0, Some(0), "support", c[0], false),
+        cand(2, 1, Some(1), "support", c[1], false),
+        cand(3, a3, Some(e3), "support", c[2], false),
+    ];
+    let (s1, g1) = aggregate(&more, false);
+    assert!(model_calls_ok(6), "format! call pattern as modelled (extended)");
+    assert!(g0 == 2 && g1 == 2, "repeating an actor or re-citing evidence adds no independent group");
+    let group_max = if by_actor { k[0] } else { k[1] };
+    if k[2] <= group_max {
+        assert!(s1.to_bits() == s0.to_bits(), "a repetition no more confident than its group changes nothing");
+    } else {
+        assert!(s1 >= s0, "a stronger member never lowers the score");
+    }
+    kani::cover!(k[2] > group_max && s1 > s0, "stronger repetition raises the score");
+    kani::cover!(k[2] <= group_max && k[2] > 0, "weaker repetition");
+    std::mem::forget((base, more));
+}
+// @check id=C20 tier=quick cap=900 role=repetition_is_not_support harness=c20_repeating_an_actor_adds_no_group,c20_reciting_evidence_adds_no_group
+// @fns projection::aggregate
+// @bound base: two independent supporters (distinct actors, distinct evidence); added third: same actor as #1 with fresh evidence / new actor citing #2's evidence; confidences on the grid {0, 1/16, .., 1}
+// @stubs alloc::fmt::format -> positional model
+#[kani::proof]
+#[kani::unwind(14)]
+#[kani::stub(alloc::fmt::format, format_model)]
+fn c20_repeating_an_actor_adds_no_group() {
+    repetition(true);
+}
+#[kani::proof]
+#[kani::unwind(14)]
+#[kani::stub(alloc::fmt::format, format_model)]
+fn c20_reciting_evidence_adds_no_group() {
+    repetition(false);
+}
+
+// A bridging assertion merges two groups that looked independent; the merged group contributes its
+// single strongest member wherever the strongest member was recorded.
+fn bridged(pos: u8) {
+    let c: [f64; 3] = kani::any();
+    kani::assume(unit(c[0]) && unit(c[1]) && unit(c[2]));
+    let x = || cand(1, 0, Some(0), "support", c[0], false);
+    let y = || cand(2, 1, Some(1), "support", c[1], false);
+    let z = || cand(3, 0, Some(1), "support", c[2], false);
+    let (kx, ky, kz) = ([akey(0), ekey(0)], [akey(1), ekey(1)], [akey(0), ekey(1)]);
+    let v = match pos {
+        0 => { set_keys(&[kx[0], kx[1], ky[0], ky[1], kz[0], kz[1]]); vec![x(), y(), z()] }
+        1 => { set_keys(&[kx[0], kx[1], kz[0], kz[1], ky[0], ky[1]]); vec![x(), z(), y()] }
+        _ => { set_keys(&[kz[0], kz[1], kx[0], kx[1], ky[0], ky[1]]); vec![z(), x(), y()] }
+    };
+    let (score, groups) = aggregate(&v, false);
+    assert!(model_calls_ok(6), "format! call pattern as modelled");
+    assert!(groups == 1, "the bridge makes one group wherever it was recorded");
+    let m = if c[0] >= c[1] { c[0] } else { c[1] };
+    let m = if m >= c[2] { m } else { c[2] };
+    assert!(score == 1.0 - (1.0 - m), "one merged group contributes its single strongest member");
+    kani::cover!(c[1] > c[0] && c[1] > c[2], "strongest member is Y");
+    kani::cover!(c[2] > c[0] && c[2] > c[1], "strongest member is the bridge");
+    std::mem::forget(v);
+}
+// @check id=C20 tier=quick cap=900 role=bridge_keeps_strongest_member harness=c20_bridge_recorded_last,c20_bridge_recorded_first
+// @fns projection::aggregate
+// @bound X (actor 0, evidence 0), Y (actor 1, evidence 1), Z (actor 0, evidence 1) bridges both; one concrete recording order per harness (XYZ / ZXY); confidences any f64 in [0,1]
+// @stubs alloc::fmt::format -> positional model
+// @check id=C20 tier=thorough cap=1500 role=bridge_keeps_strongest_member harness=c20_bridge_recorded_between
+// @fns projection::aggregate
+// @bound as above for the order XZY (306 s measured)
+// @stubs alloc::fmt::format -> positional model
+#[kani::proof]
+#[kani::unwind(14)]
+#[kani::stub(alloc::fmt::format, format_model)]
+fn c20_bridge_recorded_last() {
+    bridged(0);
+}
+#[kani::proof]
+#[kani::unwind(14)]
+#[kani::stub(alloc::fmt::format, format_model)]
+fn c20_bridge_recorded_between() {
+    bridged(1);
+}
+#[kani::proof]
+#[kani::unwind(14)]
+#[kani::stub(alloc::fmt::format, format_model)]
+fn c20_bridge_recorded_first() {
+    bridged(2);
+}
+
+// groups for a third candidate with symbolic identity (structure only), one recording position per harness
+fn three_groups(pos: u8) {
+    let (a3, e3): (u8, u8) = (kani::any(), kani::any());
+    kani::assume(a3 < 3 && e3 < 3);
+    let c1 = || cand(1, 0, Some(0), "support", 0.5, false);
+    let c2 = || cand(2, 1, Some(1), "support", 0.5, false);
+    let c3 = || cand(3, a3, Some(e3), "support", 0.5, false);
+    let (k1, k2, k3) = ([akey(0), ekey(0)], [akey(1), ekey(1)], [akey(a3), ekey(e3)]);
+    let v = match pos {
+        0 => { set_keys(&[k3[0], k3[1], k1[0], k1[1], k2[0], k2[1]]); vec![c3(), c1(), c2()] }
+        1 => { set_keys(&[k1[0], k1[1], k3[0], k3[1], k2[0], k2[1]]); vec![c1(), c3(), c2()] }
+        _ => { set_keys(&[k1[0], k1[1], k2[0], k2[1], k3[0], k3[1]]); vec![c1(), c2(), c3()] }
+    };
+    let (score, groups) = aggregate(&v, false);
+    assert!(model_calls_ok(6), "format! call pattern as modelled");
+    let links1 = a3 == 0 || e3 == 0;
+    let links2 = a3 == 1 || e3 == 1;
+    let expect = 3 - links1 as usize - links2 as usize;
+    assert!(groups == expect, "groups = connected components wherever the linking assertion was recorded");
+    assert!(score == match expect { 1 => 0.5, 2 => 0.75, _ => 0.875 }, "score is a function of the components only");
+    kani::cover!(links1 && links2, "third assertion bridges the two groups");
+    kani::cover!(expect == 3, "independent third");
+    kani::cover!(links1 && !links2 && a3 != 0, "linked to the first by evidence only");
+    std::mem::forget(v);
+}
+// @check id=C20 tier=thorough cap=1500 role=groups_are_components_three harness=c20_three_groups_third_first,c20_three_groups_third_between,c20_three_groups_third_last
+// @fns projection::aggregate
+// @bound candidates 1 and 2 independent (actors 0,1; evidence 0,1); candidate 3 has actor a3 and evidence e3 symbolic in 0..3 (repeat an actor, re-cite evidence, bridge both, or independent); one concrete recording position per harness; confidences fixed
+// @stubs alloc::fmt::format -> positional model
+#[kani::proof]
+#[kani::unwind(14)]
+#[kani::stub(alloc::fmt::format, format_model)]
+fn c20_three_groups_third_first() {
+    three_groups(0);
+}
+#[kani::proof]
+#[kani::unwind(14)]
+#[kani::stub(alloc::fmt::format, format_model)]
+fn c20_three_groups_third_between() {
+    three_groups(1);
+}
+#[kani::proof]
+#[kani::unwind(14)]
+#[kani::stub(alloc::fmt::format, format_model)]
+fn c20_three_groups_third_last() {
+    three_groups(2);
+}
+
+// which candidates count on which side (the filter is per candidate, so one candidate suffices).
+// A symbolic `opposes_target` makes the side vector's length symbolic and the query did not finish
+// (400 s), so the 3 stances x 2 flags are enumerated as six concrete harnesses (decided by CBMC's
+// constant propagation; no symbolic input).
+fn sides(stance1: &'static str, o1: bool) {
+    let v = vec![cand(1, 0, None, stance1, 0.5, o1)];
+    set_keys(&[akey(0)]);
+    let (ss, sg) = aggregate(&v, false);
+    set_keys(&[akey(0)]);
+    let (os, og) = aggregate(&v, true);
+    let s1 = !o1 && stance1.len() == 7; // "support"
+    let p1 = o1 || stance1.len() == 6; // "reject"
+    assert!(sg == s1 as usize, "support side = supporting stances that do not oppose the target");
+    assert!(og == p1 as usize, "opposition side = reject stances and rival-value supporters");
+    assert!(sg + og <= 1, "no assertion counts on both sides");
+    assert!(ss == if s1 { 0.5 } else { 0.0 } && os == if p1 { 0.5 } else { 0.0 }, "an empty side scores 0");
+    kani::cover!(sg + og == 1 || stance1.len() == 9, "counted on exactly one side unless it abstains");
+    std::mem::forget(v);
+}
+macro_rules! side {
+    ($name:ident, $st:expr, $o:expr) => {
+        #[kani::proof]
+        #[kani::unwind(14)]
+        #[kani::stub(alloc::fmt::format, format_model)]
+        fn $name() {
+            sides($st, $o);
+        }
+    };
+}
+// @check id=C20 tier=quick cap=600 role=side_filter harness=c20_side_support,c20_side_support_of_rival,c20_side_reject,c20_side_reject_of_rival,c20_side_uncertain,c20_side_uncertain_of_rival
+// @fns projection::aggregate
+// @bound one candidate; stance in {support, reject, uncertain} x opposes_target in {false, true}, one concrete combination per harness (complete enumeration, no symbolic input)
+// @stubs alloc::fmt::format -> positional model
+side!(c20_side_support, "support", false);
+side!(c20_side_support_of_rival, "support", true);
+side!(c20_side_reject, "reject", false);
+side!(c20_side_reject_of_rival, "reject", true);
+side!(c20_side_uncertain, "uncertain", false);
+side!(c20_side_uncertain_of_rival, "uncertain", true);
+
+// scores never decrease when a group's strongest confidence rises (f64 monotonicity of
+// 1 - (1-c)(1-d): a hard bit-level query; thorough tier, reported not decided if it does not fit)
+// @check id=C20 tier=thorough cap=1500 mem=24 role=monotone_in_confidence
+// @fns projection::aggregate
+// @bound two independent supporters; the first one's confidence raised from c to c' >= c; all any f64 in [0,1]
+// @stubs alloc::fmt::format -> positional model
+#[kani::proof]
+#[kani::unwind(14)]
+#[kani::stub(alloc::fmt::format, format_model)]
+fn c20_aggregate_score_monotone_in_group_maximum() {
+    let (c, c_up, d): (f64, f64, f64) = (kani::any(), kani::any(), kani::any());
+    kani::assume(unit(c) && unit(c_up) && unit(d) && c_up >= c);
+    set_keys(&[akey(0), akey(1)]);
+    let lo = vec![cand(1, 0, None, "support", c, false), cand(2, 1, None, "support", d, false)];
+    let (s_lo, _) = aggregate(&lo, false);
+    set_keys(&[akey(0), akey(1)]);
+    let hi = vec![cand(1, 0, None, "support", c_up, false), cand(2, 1, None, "support", d, false)];
+    let (s_hi, _) = aggregate(&hi, false);
+    assert!(s_hi >= s_lo, "raising a group's strongest confidence never lowers the score");
+    kani::cover!(c_up > c && s_hi > s_lo, "strictly higher");
+    std::mem::forget((lo, hi));
+}
+
+// the same on a 1/16 grid (exact arithmetic, cheap): monotone and strictly increasing below saturation
+// @check id=C20 tier=quick cap=900 role=monotone_in_confidence_grid
+// @fns projection::aggregate
+// @bound as above with confidences on the grid {0, 1/16, .., 1}
+// @stubs alloc::fmt::format -> positional model
+#[kani::proof]
+#[kani::unwind(14)]
+#[kani::stub(alloc::fmt::format, format_model)]
+fn c20_aggregate_score_monotone_on_grid() {
+    let (kc, ku, kd): (u8, u8, u8) = (kani::any(), kani::any(), kani::any());
+    kani::assume(kc <= 16 && ku <= 16 && kd <= 16 && ku >= kc);
+    let (c, c_up, d) = (kc as f64 / 16.0, ku as f64 / 16.0, kd as f64 / 16.0);
+    set_keys(&[akey(0), akey(1)]);
+    let lo = vec![cand(1, 0, None, "support", c, false), cand(2, 1, None, "support", d, false)];
+    let (s_lo, _) = aggregate(&lo, false);
+    set_keys(&[akey(0), akey(1)]);
+    let hi = vec![cand(1, 0, None, "support", c_up, false), cand(2, 1, None, "support", d, false)];
+    let (s_hi, _) = aggregate(&hi, false);
+    assert!(s_hi >= s_lo, "raising a group's strongest confidence never lowers the score");
+    if ku > kc && kd < 16 {
+        assert!(s_hi > s_lo, "and raises it while the other group is not saturated");
+    }
+    kani::cover!(ku > kc && kd < 16, "strict case");
+    kani::cover!(kd == 16, "saturated partner");
+    std::mem::forget((lo, hi));
+}
+
+// K2 n = 3: order independence -------------------------------------------------------------------
+/// three independent supporters recorded in two different orders
+fn three_independent(c: [f64; 3]) -> ((f64, usize), (f64, usize)) {
+    set_keys(&[akey(0), akey(1), akey(2)]);
+    let v1 = vec![cand(1, 0, None, "support", c[0], false), cand(2, 1, None, "support", c[1], false), cand(3, 2, None, "support", c[2], false)];
+    let r1 = aggregate(&v1, false);
+    set_keys(&[akey(2), akey(0), akey(1)]);
+    let v2 = vec![cand(3, 2, None, "support", c[2], false), cand(1, 0, None, "support", c[0], false), cand(2, 1, None, "support", c[1], false)];
+    let r2 = aggregate(&v2, false);
+    std::mem::forget((v1, v2));
+    (r1, r2)
+}
+
+/// Confidences for which the recording order changes the folded product in the last bit (found by
+/// the solver on the pinned tree, see known_findings.json): the first three give bit-different
+/// scores, the last three straddle the baseline accept threshold 0.7.
+const WITNESS_TABLE: [f64; 6] = [
+    0.2747342955321005, 0.5599984024264592, 0.4930405020713623,
+    4.505561479462017e-10, 0.49836730166003007, 0.4019528608722215,
+];
+fn table(i: u8) -> f64 {
+    match i % 6 {
+        0 => WITNESS_TABLE[0],
+        1 => WITNESS_TABLE[1],
+        2 => WITNESS_TABLE[2],
+        3 => WITNESS_TABLE[3],
+        4 => WITNESS_TABLE[4],
+        _ => WITNESS_TABLE[5],
+    }
+}
+
+// Quick-tier regression guard for the order-independence clause: the fully symbolic f64 query below
+// is fast when a counterexample exists (38 s on the pinned tree) but is a multiplier-equivalence
+// proof when none does, so the quick tier draws the three confidences from a six-value table that
+// contains the two order-sensitive triples the solver found (216 combinations, decided completely).
+// @check id=C20 tier=quick cap=900 role=order_independence_on_witness_table
+// @fns projection::aggregate, projection::classify
+// @bound three independent supporters; each confidence a symbolic choice from a 6-value table of solver-found order-sensitive confidences; recording orders (1,2,3) and (3,1,2); baseline policy, no opposition
+// @stubs alloc::fmt::format -> positional model
+#[kani::proof]
+#[kani::unwind(14)]
+#[kani::stub(alloc::fmt::format, format_model)]
+fn c20_order_independence_on_witness_table() {
+    let k: [u8; 3] = kani::any();
+    kani::assume(k[0] < 6 && k[1] < 6 && k[2] < 6);
+    let c = [table(k[0]), table(k[1]), table(k[2])];
+    let ((s1, g1), (s2, g2)) = three_independent(c);
+    assert!(g1 == 3 && g2 == 3, "three independent groups in either order");
+    assert!(s1.to_bits() == s2.to_bits(), "the score depends only on the set of assertions, not on recording order");
+    let policy = Policy::baseline();
+    let l1 = Ledger { support_groups: g1, ..Default::default() };
+    let l2 = Ledger { support_groups: g2, ..Default::default() };
+    assert!(classify(s1, 0.0, &l1, &policy) == classify(s2, 0.0, &l2, &policy), "the projected belief does not depend on the order the assertions were recorded in");
+    kani::cover!(k[0] == 0 && k[1] == 1 && k[2] == 2, "the score-bits witness triple");
+    kani::cover!(k[0] == 3 && k[1] == 4 && k[2] == 5, "the status-flip witness triple");
+    std::mem::forget((policy, l1, l2));
+}
+
+// @check id=C20 tier=thorough cap=1500 mem=24 role=order_independence_three_groups
+// @fns projection::aggregate
+// @bound three independent supporters (three distinct actors, no evidence), confidences any f64 in [0,1]; recording orders (1,2,3) and (3,1,2)
+// @stubs alloc::fmt::format -> positional model
+#[kani::proof]
+#[kani::unwind(14)]
+#[kani::stub(alloc::fmt::format, format_model)]
+fn c20_aggregate_score_independent_of_recording_order() {
+    let c: [f64; 3] = kani::any();
+    kani::assume(unit(c[0]) && unit(c[1]) && unit(c[2]));
+    let ((s1, g1), (s2, g2)) = three_independent(c);
+    assert!(g1 == 3 && g2 == 3, "three independent groups in either order");
+    assert!(s1.to_bits() == s2.to_bits(), "the score depends only on the set of assertions, not on recording order");
+    kani::cover!(s1 > 0.5 && s1 < 1.0, "non-trivial score");
+}
+
+// @check id=C20 tier=thorough cap=1500 mem=24 role=status_independent_of_order_three_groups
+// @fns projection::aggregate, projection::classify
+// @bound as above, classified under the baseline policy (accept 0.7, material 0.3) with no opposition
+// @stubs alloc::fmt::format -> positional model
+#[kani::proof]
+#[kani::unwind(14)]
+#[kani::stub(alloc::fmt::format, format_model)]
+fn c20_belief_status_independent_of_recording_order() {
+    let c: [f64; 3] = kani::any();
+    kani::assume(unit(c[0]) && unit(c[1]) && unit(c[2]));
+    let ((s1, g1), (s2, g2)) = three_independent(c);
+    let policy = Policy::baseline();
+    let l1 = Ledger { support_groups: g1, ..Default::default() };
+    let l2 = Ledger { support_groups: g2, ..Default::default() };
+    let st1 = classify(s1, 0.0, &l1, &policy);
+    let st2 = classify(s2, 0.0, &l2, &policy);
+    assert!(st1 == st2, "the projected belief does not depend on the order the assertions were recorded in");
+    kani::cover!(st1 == BeliefStatus::Accepted, "accepted reachable");
+    kani::cover!(st1 == BeliefStatus::Uncertain, "uncertain reachable");
+    std::mem::forget((policy, l1, l2));
+}
+
+// @check id=C20 tier=thorough cap=600 expect=fail role=witness
+// @fns projection::aggregate
+// @bound vacuity twin: must come back FAILED
+// @stubs alloc::fmt::format -> positional model
+#[kani::proof]
+#[kani::unwind(14)]
+#[kani::stub(alloc::fmt::format, format_model)]
+fn c20_witness_must_fail() {
+    let c: f64 = kani::any();
+    kani::assume(unit(c));
+    set_keys(&[akey(0), akey(1)]);
+    let v = vec![cand(1, 0, None, "support", c, false), cand(2, 1, None, "support", c, false)];
+    let (s, g) = aggregate(&v, false);
+    std::mem::forget(v);
+    assert!(g == 2 && s < 0.0, "reachability witness");
+}
